@@ -1,10 +1,17 @@
 package vstubodb
 
 import (
+	"context"
+
+	ipfslog "berty.tech/go-ipfs-log"
 	idp "berty.tech/go-ipfs-log/identityprovider"
+	"berty.tech/go-orbit-db/accesscontroller"
+	"berty.tech/go-orbit-db/accesscontroller/simple"
 	"berty.tech/go-orbit-db/address"
 	"berty.tech/go-orbit-db/iface"
 	"berty.tech/go-orbit-db/internal/vstub"
+	cid "github.com/ipfs/go-cid"
+	coreiface "github.com/ipfs/kubo/core/coreiface"
 	"github.com/libp2p/go-libp2p/core/event"
 	"github.com/libp2p/go-libp2p/core/peer"
 )
@@ -65,4 +72,94 @@ func (e *Env) Options(replicate bool) *iface.NewStoreOptions {
 		DirectChannel: e.Direct,
 		PeerID:        e.IPFS.Peer,
 	}
+}
+
+// Ctor is a store constructor (kvstore.NewOrbitDBKeyValue, ...).
+type Ctor func(coreiface.CoreAPI, *idp.Identity, address.Address, *iface.NewStoreOptions) (iface.Store, error)
+
+// Replica is one open store with its environment.
+type Replica struct {
+	Name  string
+	Store iface.Store
+	Env   *Env
+}
+
+// WriteAll is an access controller parameter: every identity may write.
+func WriteAll() accesscontroller.Interface {
+	params := accesscontroller.NewManifestParams(cid.Cid{}, true, "simple")
+	params.SetAccess("write", []string{"*"})
+	ac, err := simple.NewSimpleAccessController(context.Background(), nil, params)
+	if err != nil {
+		panic("vstubodb: simple AC: " + err.Error())
+	}
+	return ac
+}
+
+// Writers is an access controller admitting exactly the given identity ids.
+func Writers(ids ...string) accesscontroller.Interface {
+	params := accesscontroller.NewManifestParams(cid.Cid{}, true, "simple")
+	params.SetAccess("write", ids)
+	ac, err := simple.NewSimpleAccessController(context.Background(), nil, params)
+	if err != nil {
+		panic("vstubodb: simple AC: " + err.Error())
+	}
+	return ac
+}
+
+// Open opens a replica of database (dbCid, dbName) for identity `name` over a
+// (possibly shared) block store.  env may carry a pre-existing cache (restart).
+func Open(ctor Ctor, name string, blocks *vstub.Blocks, ac accesscontroller.Interface, replicate bool, cache *vstub.Cache) *Replica {
+	env := NewEnv(name, 1, "db", blocks, nil)
+	if cache != nil {
+		env.Cache = cache
+	}
+	opts := env.Options(replicate)
+	opts.AccessController = ac
+	st, err := ctor(env.IPFS, env.Identity, env.Addr, opts)
+	if err != nil {
+		vstub.Fail("store constructor failed")
+		return nil
+	}
+	return &Replica{Name: name, Store: st, Env: env}
+}
+
+// Heads returns the replica's current heads as entries.
+func (r *Replica) Heads() []ipfslog.Entry {
+	return r.Store.OpLog().Heads().Slice()
+}
+
+// SyncFrom delivers the heads of `from` to r through the real Sync path
+// (replicator, fetcher, join) and waits for quiescence.
+func (r *Replica) SyncFrom(from *Replica) {
+	heads := from.Heads()
+	// heads travel as copies (they are decoded from a message in reality)
+	var copies []ipfslog.Entry
+	for _, h := range heads {
+		copies = append(copies, h.Copy())
+	}
+	if err := r.Store.Sync(context.Background(), copies); err != nil {
+		vstub.Fail("Sync returned an error for honest heads")
+	}
+	vstub.WaitIdle()
+}
+
+// Hashes lists the log in its total order.
+func (r *Replica) Hashes() []string {
+	var out []string
+	for _, e := range r.Store.OpLog().Values().Slice() {
+		out = append(out, e.GetHash().String())
+	}
+	return out
+}
+
+func SameStrings(a, b []string) bool {
+	if len(a) != len(b) {
+		return false
+	}
+	for i := range a {
+		if a[i] != b[i] {
+			return false
+		}
+	}
+	return true
 }
